@@ -698,7 +698,11 @@ theorem step_untouched (a : Bool) (st : St) (i : Nat) (n : Ns) (h : Untouched (s
     have h1 := cnt_set st i t (stepTask a st.sh t).1 hi n 1
     have hw := countP_set_some (wants n) st.tasks i t (stepTask a st.sh t).1 hi
     have hc1 : cls n (stepTask a st.sh t).1 ≠ 1 := by
-      intro hx; rw [hx] at h1; simp only [if_true] at h1; trace_state; omega
+      intro hx; rw [hx] at h1; simp only [if_true] at h1
+      have hpos := cnt_pos st i t hi n
+      by_cases hct : cls n t = 1
+      · rw [hct] at hpos; simp only [hct, if_true] at h1; omega
+      · simp only [hct, if_false] at h1; omega
     have hr1 : (stepTask a st.sh t).1.pc ≠ .raised := by
       apply hr; unfold step; simp only [hi]
       obtain ⟨hlt, _⟩ := List.getElem?_eq_some_iff.mp hi
@@ -709,5 +713,166 @@ theorem step_untouched (a : Bool) (st : St) (i : Nat) (n : Ns) (h : Untouched (s
     · unfold nWants; simp only
       rw [g4] at hw; omega
 
+
+theorem run_untouched (a : Bool) (sched : List Nat) (st : St) (n : Ns)
+    (hr : ∀ pre, pre <+: sched → ∀ t ∈ (run a st pre).tasks, t.pc ≠ .raised)
+    (h : Untouched (run a st sched) n) :
+    Untouched st n ∧ nWants (run a st sched) n = nWants st n := by
+  induction sched generalizing st with
+  | nil => exact ⟨h, rfl⟩
+  | cons i r ih =>
+    simp only [run, List.foldl_cons] at h ⊢
+    have hr' : ∀ pre, pre <+: r → ∀ t ∈ (run a (step a st i) pre).tasks, t.pc ≠ .raised := by
+      intro pre hpre
+      have := hr (i :: pre) (List.prefix_cons_inj i |>.mpr hpre)
+      simpa [run] using this
+    obtain ⟨h1, h2⟩ := ih (step a st i) hr' h
+    have hr0 := hr [i] (by simp)
+    simp only [run, List.foldl_cons, List.foldl_nil] at hr0
+    obtain ⟨g1, g2⟩ := step_untouched a st i n h1 hr0
+    exact ⟨g1, h2.trans g2⟩
+
+/-! ## consequences of the invariant -/
+
+theorem inv_calls_le (m0 : Ns → Bool) (st : St) (hI : Inv m0 st) (n : Ns) : ncalls st n ≤ 1 := by
+  have := hI.phase n
+  unfold Phase at this
+  omega
+
+theorem inv_anyRaised (m0 : Ns → Bool) (st : St) (hI : Inv m0 st) : anyRaised st = false := by
+  simp only [anyRaised, List.any_eq_false]
+  intro t ht
+  simpa using hI.noRaise t ht
+
+theorem allDone_cnt (st : St) (h : allDone st = true) (n : Ns) (k : Nat) (hk : k ≠ 0) :
+    cnt st n k = 0 := by
+  unfold cnt cntL
+  apply List.countP_eq_zero.mpr
+  intro t ht
+  have hf : finished t = true := by
+    simp only [allDone, List.all_eq_true] at h; exact h t ht
+  have : cls n t = 0 := by
+    apply cls_of_pc_zero
+    simp only [finished, Bool.or_eq_true, beq_iff_eq] at hf
+    rcases hf with hf | hf <;> simp [hf]
+  simp [this]; omega
+
+theorem allDone_nWants (st : St) (h : allDone st = true) (n : Ns) : nWants st n = 0 := by
+  unfold nWants
+  apply List.countP_eq_zero.mpr
+  intro t ht
+  have hf : finished t = true := by
+    simp only [allDone, List.all_eq_true] at h; exact h t ht
+  simp only [finished, Bool.or_eq_true, beq_iff_eq] at hf
+  rcases hf with hf | hf <;> simp [wants, hf]
+
+/-- at quiescence a namespace the sid was connected to and that some task still had to check at
+    the start has ended: handler ran once, no membership, not pending -/
+theorem quiescent_ended (a : Bool) (m0 : Ns → Bool) (st0 : St) (sched : List Nat) (n : Ns)
+    (hI : ∀ pre, pre <+: sched → Inv m0 (run a st0 pre))
+    (hd : allDone (run a st0 sched) = true) (hm0 : m0 n = true) (hw : 0 < nWants st0 n) :
+    ncalls (run a st0 sched) n = 1 ∧ (run a st0 sched).sh.mem n = false ∧
+    (run a st0 sched).sh.pend n = 0 := by
+  have hph := (hI sched (List.prefix_refl _)).phase n
+  have c1 := allDone_cnt _ hd n 1 (by omega)
+  have c2 := allDone_cnt _ hd n 2 (by omega)
+  have c3 := allDone_cnt _ hd n 3 (by omega)
+  have hnot : ¬ Untouched (run a st0 sched) n := by
+    intro hu
+    have := (run_untouched a sched st0 n (fun pre hp => (hI pre hp).noRaise) hu).2
+    rw [allDone_nWants _ hd n] at this
+    omega
+  rw [c1, c2, c3, hm0] at hph
+  cases hmem : (run a st0 sched).sh.mem n
+  · simp [Phase, hmem] at hph
+    exact ⟨hph.2, rfl, hph.1⟩
+  · exfalso
+    simp [Phase, hmem] at hph
+    exact hnot ⟨hmem, hph.1, c1⟩
+
+/-! ## initial states -/
+
+/-- nobody has started (every task is at its first pc or already over), nothing pending, no
+    handler call recorded -/
+structure Init (st : St) : Prop where
+  pcs : ∀ t ∈ st.tasks, t.pc = .check ∨ t.pc = .chandler ∨ t.pc = .done
+  pend : ∀ n, st.sh.pend n = 0
+  calls : ∀ n, st.sh.calls n = []
+  contained : st.sh.contained = 0
+
+theorem init_inv (st : St) (h : Init st) : Inv st.sh.mem st ∧ noMark st := by
+  have hz : ∀ n k, k ≠ 0 → cnt st n k = 0 := by
+    intro n k hk
+    unfold cnt cntL
+    apply List.countP_eq_zero.mpr
+    intro t ht
+    have : cls n t = 0 := by
+      apply cls_of_pc_zero
+      rcases h.pcs t ht with hp | hp | hp <;> simp [hp]
+    simp [this]; omega
+  refine ⟨⟨?_, h.contained, ?_⟩, ?_⟩
+  · intro t ht; rcases h.pcs t ht with hp | hp | hp <;> simp [hp]
+  · intro n
+    rw [hz n 1 (by omega), hz n 2 (by omega), hz n 3 (by omega)]
+    simp only [ncalls, h.pend n, h.calls n, List.length_nil]
+    cases st.sh.mem n <;> simp [Phase]
+  · intro t ht; rcases h.pcs t ht with hp | hp | hp <;> simp [hp]
+
+theorem init_wants (st : St) (h : Init st) (n : Ns) (ht : targeted st n = true) : 0 < nWants st n := by
+  simp only [targeted, List.any_eq_true] at ht
+  obtain ⟨t, hmem, htt⟩ := ht
+  unfold nWants
+  apply List.countP_pos_iff.mpr
+  refine ⟨t, hmem, ?_⟩
+  rcases h.pcs t hmem with hp | hp | hp <;> simp [touches, wants, hp] at htt ⊢
+  exact htt
+
+theorem mkSt_init (tasks : List (Kind × List Ns)) (conn others : List Ns) :
+    Init (mkSt tasks conn others) := by
+  refine ⟨?_, fun _ => rfl, fun _ => rfl, rfl⟩
+  intro t ht
+  simp only [mkSt, List.mem_map] at ht
+  obtain ⟨p, _, rfl⟩ := ht
+  cases p.1 <;> simp [mkTask, startPc]
+
+theorem gateSerial_prefix (pre sched : List Nat) (st : St) (hp : pre <+: sched)
+    (h : gateSerial st sched = true) : gateSerial st pre = true := by
+  induction pre generalizing st sched with
+  | nil => rfl
+  | cons i r ih =>
+    cases sched with
+    | nil => simp at hp
+    | cons j r' =>
+      have hij : i = j := (List.cons_prefix_cons.mp hp).1
+      have hr : r <+: r' := (List.cons_prefix_cons.mp hp).2
+      subst hij
+      simp only [gateSerial, Bool.and_eq_true] at h ⊢
+      exact ⟨h.1, ih r' (step false st i) hr h.2⟩
+
+/-- everything the property says, from the invariant along the schedule -/
+theorem conclusions (a : Bool) (st0 : St) (h0 : Init st0) (sched : List Nat)
+    (hI : ∀ pre, pre <+: sched → Inv st0.sh.mem (run a st0 pre)) :
+    (∀ n, ncalls (run a st0 sched) n ≤ 1)
+    ∧ anyRaised (run a st0 sched) = false
+    ∧ (run a st0 sched).sh.contained = 0
+    ∧ (allDone (run a st0 sched) = true → ∀ n, st0.sh.mem n = true → targeted st0 n = true →
+        ncalls (run a st0 sched) n = 1 ∧ residue (run a st0 sched) n = false)
+    ∧ (∀ n, st0.sh.mem n = false →
+        ncalls (run a st0 sched) n = 0 ∧ residue (run a st0 sched) n = false)
+    ∧ (∀ n, targeted st0 n = false →
+        (run a st0 sched).sh.mem n = st0.sh.mem n ∧ ncalls (run a st0 sched) n = 0 ∧
+        (run a st0 sched).sh.pend n = 0) := by
+  have hfin := hI sched (List.prefix_refl _)
+  refine ⟨inv_calls_le _ _ hfin, inv_anyRaised _ _ hfin, hfin.noContained, ?_, ?_, ?_⟩
+  · intro hd n hm ht
+    obtain ⟨q1, q2, q3⟩ := quiescent_ended a st0.sh.mem st0 sched n hI hd hm (init_wants st0 h0 n ht)
+    exact ⟨q1, by simp [residue, q2, q3]⟩
+  · intro n hm
+    have := hfin.phase n
+    simp [Phase, hm] at this
+    exact ⟨this.2.2.1, by simp [residue, this.1, this.2.1]⟩
+  · intro n ht
+    obtain ⟨f1, f2, f3⟩ := run_frame a sched st0 n ht
+    exact ⟨f1, by simp [ncalls, f3, h0.calls n], by rw [f2, h0.pend n]⟩
 
 end Sio.Sched
